@@ -2,6 +2,10 @@
 CONTRACT_MODULES = [
     "contracts.canaries",
     "contracts.fec_block",
+    "contracts.crc",
+    "contracts.bptc",
+    "contracts.trellis",
+    "contracts.rs",
 ]
 
 TRUSTED_BASE = [
@@ -20,5 +24,26 @@ PROPS = {
         level_text="Proof for all inputs: systematic / passes-check / frame clauses on all 2^k messages (symbolic contents, one path), check accepts exactly the codewords on all 2^n words, single-error repair for every position and (16,11,4) double-error rejection for all 120 pairs on symbolic codewords; minimum distance by exact enumeration of the linear map extracted from the real encoder.",
         level_note="Trusted: CPython, pyvc models of bitarray/numpy (cross-checked natively each run), gf2 back end. The codes' (n,k,d) parameters are those the class names / ETSI B.3.1-B.3.5 advertise; the standard's matrices themselves are not available offline, so 'is the ETSI matrix' is not claimed - the statement's clauses are.",
         explanation="Hamming/Golay/QR: contracts on generate/check/check_and_correct, all 2^k messages and all 2^n words as symbolic contents; kernel/image/distance lemmas on the linear maps extracted from the real code",
+    ),
+    "C05": dict(
+        level_text="Proof per literal length with fully symbolic contents: the five CRC engines (bit-serial loop cut by its LFSR invariant, table-driven register over the real look-up table) equal the monomial-remainder spec for every length in the tier's set (thorough: every length 0..400, both modes), front ends CRC-8/9/CCITT/32 apply inversion / mask / octet order, check accepts exactly the computed value, leftover register contents do not matter; burst/1-3-bit detection as a rank lemma on the linear map extracted from the real engine.",
+        level_note="Quick tier covers lengths 0..33 plus every feed-width residue and the PDU lengths, thorough every length 0..400. Generator polynomials, masks and the CRC-32 octet order are transcribed from knowledge of ETSI TS 102 361-1 B.3.7-B.3.12 (no copy offline) - an assumption. Trusted: CPython, pyvc models, gf2 back end.",
+        explanation="contracts on BitCrcRegister._process_bits (loop cut), calculate_checksum, CRC8/9/16/32 front ends vs spec/crc.py",
+        assumptions=["ETSI polynomials / masks / CRC-32 word order are transcribed from knowledge of the standard, not from an offline copy"],
+    ),
+    "C02": dict(
+        level_text="Proof for all 2^96 messages: one symbolic run per literal error pattern; round trip with/without repair, every single inverted bit (196) and double errors (quick: the 2730 pairs sharing a matrix row/column or touching R(3); thorough: all 19110 pairs) decode to the message; repair leaves an error-free codeword unaltered in both entry modes; frames.",
+        level_note="Trusted: CPython, pyvc models of bitarray/numpy object arrays, gf2 back end. Hamming callees are inlined (affine) and separately under their C06 contracts.",
+        explanation="contracts on BPTC19696.encode / deinterleave_data_bits / repair_if_necessary / deinterleave_all_bits",
+    ),
+    "C10": dict(
+        level_text="Proof for all 2^144 blocks: table lemmas (permutation, bijections, 8 distinct points per state), encoder output length and decoder front half on symbolic blocks, the decoder loop cut per iteration with a functional invariant (all 49 iterations, free received point: rejected iff no successor emits it), decode(encode(b)) = b for bits and bytes through the loop's contract.",
+        level_note="Trusted: CPython, pyvc finite-function tables (SFun), loop cutter (one `for` rewritten mechanically from the current source each run), enumeration back end.",
+        explanation="contracts on all Trellis34 static methods",
+    ),
+    "C11": dict(
+        level_text="Proof: log_multiply equals the GF(2^8) product on all 65536 pairs (symbolic operands, point-wise tables); generate on 9 symbolic octets and a symbolic mask is systematic with zero syndromes at alpha^1..3; check accepts exactly zero-syndrome words (12 free octets, free mask); every 1-3 octet corruption detected by a rank lemma on the parity map extracted from the real generate.",
+        level_note="generate/check are verified against log_multiply's contract (stub), which is discharged in the same run. Trusted: CPython, pyvc models, spec/gf256.py (from-scratch carry-less multiply).",
+        explanation="contracts on ReedSolomon1294.log_multiply / generate / check",
     ),
 }
